@@ -61,6 +61,13 @@ class ModuleRef:
         self.name = name
 
 
+class PyPath:
+    """pathlib.Path restricted to pure path arithmetic on concrete strings."""
+
+    def __init__(self, p):
+        self.p = p
+
+
 class SuperProxy:
     def __init__(self, obj, cls):
         self.obj = obj
@@ -340,6 +347,10 @@ class Executor:
             if sub is not None:
                 return ModuleRef(modname + '.' + attr)
             return self.module_attr(modname, attr)
+        if name == '__file__':
+            return module.path
+        if name == '__name__':
+            return module.name
         if name in BUILTINS:
             return BUILTINS[name]
         if name in EXC_NAMES or name in ('int', 'float', 'str', 'bool', 'list', 'dict', 'set', 'tuple', 'object'):
@@ -350,6 +361,8 @@ class Executor:
 
     def module_attr(self, modname, attr):
         if modname.startswith('propka'):
+            if self.repo.module(modname + '.' + attr) is not None:
+                return ModuleRef(modname + '.' + attr)
             m = self.repo.module(modname)
             if m is not None:
                 return self.lookup_global(attr, m)
@@ -365,6 +378,8 @@ class Executor:
             return getattr(_string, attr)
         if modname in ('logging', 'warnings', 'typing'):
             return Opaque(key)
+        if modname == 'pathlib' and attr == 'Path':
+            return BUILTINS['pathlib.Path']
         raise Unsupported('module attribute %s' % key)
 
     # ------------------------------------------------------------------ statements
@@ -471,9 +486,8 @@ class Executor:
 
     def setitem(self, o, k, v):
         if isinstance(o, dict):
-            if isinstance(k, (Sym, SStr)):
-                raise Unsupported('dict store with symbolic key')
-            o[_hashable(k)] = v
+            key = dict_find(self, o, k)
+            o[_hashable(k) if key is MISSING else key] = v
         elif isinstance(o, list):
             if isinstance(k, Sym):
                 raise Unsupported('list store with symbolic index')
@@ -770,6 +784,17 @@ class Executor:
             if expr is not None:
                 return self.class_attr_value(c, name, expr)
             raise PyRaise('AttributeError', name)
+        if isinstance(o, PyPath):
+            import os as _os
+            if name == 'parent':
+                return PyPath(_os.path.dirname(o.p))
+            if name == 'stem':
+                return _os.path.splitext(_os.path.basename(o.p))[0]
+            if name == 'suffix':
+                return _os.path.splitext(o.p)[1]
+            if name == 'name':
+                return _os.path.basename(o.p)
+            raise Unsupported('Path.%s' % name)
         if isinstance(o, Opaque):
             return Opaque('%s.%s' % (o.what, name))
         if isinstance(o, (str, SStr)):
@@ -826,17 +851,10 @@ class Executor:
             except IndexError:
                 raise PyRaise('IndexError')
         if isinstance(o, dict):
-            if isinstance(k, SStr):
-                for key in o:
-                    if isinstance(key, str) and self.truth(self.equals(k, key)):
-                        return o[key]
-                raise PyRaise('KeyError')
-            if isinstance(k, Sym):
-                raise Unsupported('dict lookup with symbolic numeric key')
-            try:
-                return o[_hashable(k)]
-            except KeyError:
+            key = dict_find(self, o, k)
+            if key is MISSING:
                 raise PyRaise('KeyError', k)
+            return o[key]
         if isinstance(o, Obj) and o.cls is not None and o.cls.find_method('__getitem__'):
             return self.call_repo(o.cls.find_method('__getitem__'), [k], {}, o)
         if o is None:
@@ -927,6 +945,9 @@ class Executor:
             return self.call_repo(a.cls.find_method(meth), [b], {}, a)
         if isinstance(b, Obj) and b.cls is not None and rmeth and b.cls.find_method(rmeth):
             return self.call_repo(b.cls.find_method(rmeth), [a], {}, b)
+        if isinstance(a, PyPath) and sym == '/':
+            import os as _os
+            return PyPath(_os.path.join(a.p, b.p if isinstance(b, PyPath) else b))
         if isinstance(a, (str, SStr)) and isinstance(b, (str, SStr)) and sym == '+':
             return mk_str(str_chars(a) + str_chars(b))
         if sym == '+' and (isinstance(a, FmtStr) or isinstance(b, FmtStr)) and \
@@ -1136,6 +1157,8 @@ class Executor:
         if isinstance(container, Opaque):
             raise Unsupported('membership in opaque')
         if isinstance(container, dict):
+            if has_sym(x) or any(has_sym(k) for k in container):
+                return dict_find(self, container, x) is not MISSING
             container = list(container.keys())
         if isinstance(container, (str, SStr)) and isinstance(x, (str, SStr)):
             cc, cx = str_chars(container), str_chars(x)
@@ -1287,6 +1310,28 @@ def _hashable(k):
     if isinstance(k, list):
         return tuple(k)
     return k
+
+
+def has_sym(k):
+    if isinstance(k, (Sym, SStr)):
+        return True
+    if isinstance(k, (tuple, list)):
+        return any(has_sym(x) for x in k)
+    return False
+
+
+def dict_find(ex, d, k):
+    """Existing key of d equal to k (forks on symbolic equality), or the sentinel MISSING."""
+    if not has_sym(k) and not any(has_sym(x) for x in d):
+        k = _hashable(k)
+        return k if k in d else MISSING
+    for key in list(d.keys()):
+        if ex.truth(ex.equals(key, k)):
+            return key
+    return MISSING
+
+
+MISSING = object()
 
 
 def _load(target):
